@@ -1,6 +1,7 @@
 import CwPlus.Lemmas.Ics20
 import CwPlus.Lemmas.Ics20Migrate
 import CwPlus.Lemmas.Ics20Env
+import CwPlus.Lemmas.Ics20TotalSent
 /-!
 # C12 — cw20-ics20: channel balance tracks vouchers exactly; error acks change nothing
 
@@ -569,6 +570,60 @@ theorem refund_after_migrate_ok {w w' : World} {blk : Block} {g : Option Nat} {o
   refine ⟨_, onPacketFailure_ok_of_entry hget hle hgas, ?_⟩
   simp [outstanding]
 
+/-! ## The re-baselined ledger is the contract's own `total_sent` counter -/
+
+/-- **C12, outstanding_identity with packets in flight at the start**: the identity of
+`outstanding_identity` for a start state that already has packets in flight (`fl`: sent by an earlier
+history — e.g. under the old code, before a migration — and still awaiting their acknowledgement or
+timeout, which `admissible` then lets through once each). -/
+theorem outstanding_identity_inflight (w : World) (fl : List (String × Packet)) (ops : List (Block × Op))
+    (c : String) (d : Denom) :
+    let wg := runG (w, Ghost.initWith w fl) ops
+    outstanding wg.1.st c d + wg.2.failed (c, d) + wg.2.redeemed (c, d) = wg.2.sent (c, d) := by
+  intro wg
+  exact (runG_ledger ops (ledgerInv_initWith w fl)).1 (c, d)
+
+/-- **C12, sent_tracks_total_sent**: on every history from a well-formed state — with migrations anywhere,
+and any set `fl` of packets in flight at the start — the ghost ledger `sent` of `outstanding_identity` and
+the contract's own counter `total_sent` (reported by `Channel{id}`) move in lock step, for every channel
+and denomination: a transfer adds its amount to both, and a migration from ≤ 0.13.0, which re-baselines
+`sent`, adds to `total_sent` exactly what it adds to `outstanding` (the in-flight tokens it books).  So
+the re-baselining is not an artefact of the ghost: `sent − sent₀ = total_sent − total_sent₀` throughout. -/
+theorem sent_tracks_total_sent (w : World) (fl : List (String × Packet)) (ops : List (Block × Op))
+    (hwf : WellFormed w.st) (c : String) (d : Denom) :
+    let wg := runG (w, Ghost.initWith w fl) ops
+    totAt wg.1.st.chan (c, d) + outstanding w.st c d = wg.2.sent (c, d) + totAt w.st.chan (c, d) := by
+  intro wg
+  have h0 : TotInv (totAt w.st.chan) (outAt w.st.chan) (w, Ghost.initWith w fl) := by
+    intro k; simp only [Ghost.init, Ghost.initWith]; omega
+  have := runG_totInv ops hwf (ledgerInv_initWith w fl) h0 (c, d)
+  rw [outstanding_eq]; exact this
+
+/-- **C12, outstanding_identity in observable terms**: combining the two, on every history (migrations
+included) `outstanding + failedOrTimedOut + redeemed = outstanding₀ + (total_sent − total_sent₀)`, stated
+additively: the accounting identity with "sent" read off the contract's own `total_sent`. -/
+theorem outstanding_identity_total_sent (w : World) (fl : List (String × Packet)) (ops : List (Block × Op))
+    (hwf : WellFormed w.st) (c : String) (d : Denom) :
+    let wg := runG (w, Ghost.initWith w fl) ops
+    outstanding wg.1.st c d + wg.2.failed (c, d) + wg.2.redeemed (c, d) + totAt w.st.chan (c, d)
+      = outstanding w.st c d + totAt wg.1.st.chan (c, d) := by
+  have h1 := outstanding_identity_inflight w fl ops c d
+  have h2 := sent_tracks_total_sent w fl ops hwf c d
+  simp only at h1 h2 ⊢
+  omega
+
+/-- From a fresh instantiation: `outstanding + failedOrTimedOut + redeemed = total_sent`. -/
+theorem outstanding_identity_fresh {m : InstMsg} {s : State} (hi : instantiate m = .ok s) (w : World) (ops : List (Block × Op))
+    (c : String) (d : Denom) :
+    let wg := runG ({ w with st := s }, Ghost.init { w with st := s }) ops
+    outstanding wg.1.st c d + wg.2.failed (c, d) + wg.2.redeemed (c, d) = totAt wg.1.st.chan (c, d) := by
+  intro wg
+  have h := outstanding_identity_total_sent { w with st := s } [] ops (instantiate_wellFormed hi) c d
+  rw [Ghost.initWith_nil] at h
+  simp [instantiate] at hi
+  obtain ⟨_, allow, _, rfl⟩ := hi
+  simpa [totAt, outstanding] using h
+
 /-! ## Error acknowledgements are unobservable -/
 
 /-- `REPLY_ARGS` is not observable: no query reads it. -/
@@ -703,5 +758,37 @@ receiver fails, `reply` restores the balance): ack = error, and the books are th
 example : ((run w0 (hist.take 2)).exec b0 (.recv (pkt (.cw20 "T1") 10) false true false)).toOption.map
       (fun r => (r.2.ack, r.1.st.replyArgs, r.1.st.chan == (run w0 (hist.take 2)).st.chan)) =
     some (some .error, some ⟨"channel-0", .cw20 "T1", 10⟩, true) := by decide
+
+/-- `sent_tracks_total_sent` on the legacy history: the migration books 60 uatom in flight — the ghost
+`sent` goes from 40 to 100, the contract's `total_sent` from 70 to 130. -/
+example : WellFormed wL.st := ⟨by unfold AMap.NodupKeys; decide, by decide⟩
+/-- the 15 T1 sent under the old code are in flight at the start -/
+def flL : List (String × Packet) := [("channel-0", ⟨15, .cw20 "T1", "remote-bob", "alice", none⟩)]
+example : (runG (wL, Ghost.initWith wL flL) histL).2.sent ("channel-0", .native "uatom") = 100 ∧
+    totAt (runG (wL, Ghost.initWith wL flL) histL).1.st.chan ("channel-0", .native "uatom") = 130 ∧
+    (runG (wL, Ghost.initWith wL flL) histL).2.redeemed ("channel-0", .native "uatom") = 100 ∧
+    (runG (wL, Ghost.initWith wL flL) histL).2.failed ("channel-0", .cw20 "T1") = 15 ∧
+    (runG (wL, Ghost.initWith wL flL) histL).2.sent ("channel-0", .cw20 "T1") = 25 := by decide
+
+/-- The environment assumptions hold of the demo history, and a state with the keys of `wL` is faithful. -/
+example : EnvAssumptions w0.self w0.tokens hist := by
+  refine ⟨?_, ⟨?_, ?_⟩, ?_⟩
+  · intro blk snd funds sender amt msg hm; simp [hist] at hm
+  · intro blk snd funds msg hm
+    simp [hist] at hm
+    obtain ⟨_, rfl, _⟩ := hm; decide
+  · intro blk snd token amt msg hm
+    simp [hist] at hm
+    obtain ⟨_, rfl, _⟩ := hm; decide
+  · intro blk snd funds msg hm f hf
+    simp [hist] at hm
+    obtain ⟨_, _, rfl, _⟩ := hm
+    simp at hf; subst hf; exact nativeOk_of_take (by decide)
+example : KeysFaithful wL.st.chan := by
+  intro k hk
+  simp [wL, AMap.keys] at hk
+  rcases hk with rfl | rfl
+  · exact nativeOk_of_take (by decide)
+  · trivial
 
 end CwPlus.Props.C12
